@@ -204,4 +204,28 @@ def Expr.vars {α : Type} : Expr α → List Var
   | .un _ e => e.vars
   | .bin _ l r => l.vars ++ r.vars
 
+/-! ### Variable tokens of the formula TEXT (round 4c) -/
+
+/-- The look-ups a token list stands for: a literal token that denotes `[n]` / `[name]` / a bare name is one
+    look-up, a group token contributes what `g` answers for its text, operators and unary modifiers nothing. -/
+def tokListVars {α : Type} (cls : Bytes → Option (Atom α)) (g : Bytes → List Var) : List Token → List Var
+  | [] => []
+  | tk :: rest =>
+    (match tk.t with
+     | .lit => (match cls tk.val with | some a => a.vars | none => [])
+     | .group => g tk.val
+     | _ => []) ++ tokListVars cls g rest
+
+/-- … of a text tokenized by `tk`, with a nesting budget (one unit per level of parentheses). -/
+def textVarsF {α : Type} (tk : Bytes → Option (List Token)) (cls : Bytes → Option (Atom α)) : Nat → Bytes → List Var
+  | 0, _ => []
+  | f + 1, s =>
+    match tk s with
+    | none => []
+    | some toks => tokListVars cls (textVarsF tk cls f) toks
+
+/-- The variable tokens of a formula text, in text order, groups entered. -/
+def textVars {α : Type} (tk : Bytes → Option (List Token)) (cls : Bytes → Option (Atom α)) (s : Bytes) : List Var :=
+  textVarsF tk cls (s.length + 1) s
+
 end Rare.C19
